@@ -3,6 +3,7 @@
 use std::panic;
 
 mod bc;
+mod gck;
 mod pos;
 
 fn hex_to_bytes(s: &str) -> Vec<u8> {
@@ -57,6 +58,7 @@ fn main() {
         "demangle" => demangle(&rest),
         "position" => pos::position(&rest),
         "bc" => bc::bc(&rest),
+        "gck" => gck::gck(&rest),
         _ => println!("unknown_command=1"),
     });
     if let Err(e) = r {
